@@ -16,6 +16,8 @@ pub mod c01;
 #[cfg(kani)]
 pub mod c08;
 #[cfg(kani)]
+pub mod c10;
+#[cfg(kani)]
 pub mod c11;
 #[cfg(kani)]
 pub mod c16;
